@@ -7,7 +7,7 @@ use riscv_analysis::parser::{CanGetURIString, RVDocument, RVParser, Range as MyR
 use riscv_analysis::passes::DiagnosticItem;
 use riscv_analysis::passes::SeverityLevel;
 use riscv_analysis::reader::{FileReader, FileReaderError};
-use std::collections::HashMap;
+use std::collections::{HashMap, HashSet};
 
 mod completion;
 pub use completion::*;
@@ -89,6 +89,8 @@ impl LSPDiag for DiagnosticItem {
 pub struct LSPFileReader {
     pub file_uris: HashMap<Uuid, RVDocument>,
     pub base_file: Option<Uuid>,
+    /// The documents handed out so far: a document is read at most once.
+    read: HashSet<Uuid>,
 }
 
 #[derive(Serialize, Deserialize, Clone)]
@@ -147,6 +149,12 @@ impl FileReader for LSPFileReader {
 
         // if file found, return lexer
         let doc = doc.unwrap();
+        // A document is read at most once. This is also what stops a
+        // document that includes itself, directly or through others, from
+        // being read forever.
+        if !self.read.insert(doc.0) {
+            return Err(FileReaderError::FileAlreadyRead(fulluri));
+        }
         Ok((doc.0, doc.1.text))
     }
 
@@ -168,6 +176,7 @@ impl LSPFileReader {
         LSPFileReader {
             file_uris: map,
             base_file,
+            read: HashSet::new(),
         }
     }
 }
